@@ -327,7 +327,7 @@ class Interp:
                     t = self.resolve(ins.type)
                     self._write_basic(t, self.literal(t, ins.value), w, None, False)
             elif k == "switch":
-                fv = obj.fields[ins.field]
+                fv = self.switch_value(ins, obj)
                 cd = obj.fields.get(ins.field + "_data")
                 case = self.select_case(ins, fv, obj.cls)
                 if case is None:
@@ -376,12 +376,20 @@ class Interp:
 
         def visit(b):
             for ins in b:
-                if ins.kind == "field" and ins.name == field:
+                if ins.kind in ("field", "length") and ins.name == field:
                     res.append(ins)
                 elif ins.kind == "chunked":
                     visit(ins.body)
         visit(body)
         return self.resolve(res[0].type)
+
+    def switch_value(self, sw, obj):
+        """The value a switch of obj looks at: the field's, or for a switch on a <length> the count itself
+        (the length of the item that refers to it, before the offset is taken off)."""
+        if sw.field in obj.fields:
+            return obj.fields[sw.field]
+        ref = self._referenced_value(sw.field, obj)
+        return None if ref is None else len(ref)
 
     def select_case(self, sw, fv, cls):
         """First case whose value equals the field value, else the default case, else None."""
@@ -498,7 +506,7 @@ class Interp:
                     self._read_basic(self.resolve(ins.type), r, None, False, budget)
             elif k == "switch":
                 fields[ins.field + "_data"] = None
-                case = self.select_case(ins, fields[ins.field], cls)
+                case = self.select_case(ins, lens[ins.field] if ins.field in lens else fields[ins.field], cls)
                 if case is not None and case.body:
                     fields[ins.field + "_data"] = self.deserialize(cls + (self.case_class_name(ins.field, case),), r, budget)
             elif k == "chunked":
